@@ -8,6 +8,7 @@
 #include <cmath>
 #include <cstdlib>
 #include <cstring>
+#include <igris/binreader.h>
 #include <igris/util/numconvert.h>
 #include "ro_text.hpp"
 #include <set>
@@ -351,6 +352,14 @@ static void check_render(const Rend &r, double x, int prec, Tally &ty, bool seco
     {
         char keep[64];
         memcpy(keep, big, len + 1);
+        // third call into a buffer that is never cleared: it still holds the previous (often longer) text of this renderer family.
+        // The terminator must be where it was in the fresh buffer.
+        static char reused[4][64];
+        char *ru = reused[&r - RENDS < 4 ? &r - RENDS : 0];
+        r.fn(x, ru, prec);
+        if (memcmp(ru, keep, len + 1) != 0)
+            mc::violation(mc::fmt("C12.%s.stale_text_in_reused_buffer", r.name), "%s(%a, prec %d): \"%s\" in a fresh buffer, \"%s\" in a buffer that held an earlier text",
+                          r.name, x, prec, vis(keep, len).c_str(), vis(ru, strnlen(ru, 63)).c_str());
         char *ex = pool(len + 1);
         memset(ex, 0xAA, len + 1);
         r.fn(x, ex, prec);
@@ -1019,6 +1028,188 @@ MC_INIT
         if (mi && (ev > 99 || ev < -99))
             mc::nontrivial();
         mc::more_cases(cases - 1, (mi && (ev > 99 || ev < -99)) ? cases - 1 : 0);
+    });
+
+    // (8) long history on ONE igris::binreader: a stream of >= 40000 fields (thorough 250000; float literals, decimal integers,
+    //     raw 32-bit fields, bound byte ranges, separators; > 400 KB, so every byte/call counter passes 65535 several times) is read
+    //     in sequence through the same object; after EVERY read the value (strtof / strtol / the bytes) and the cursor
+    //     (bind_buffer(p, 0)) are compared. The float entry point reports the end of the literal by where the reader continues.
+    reg("binreader_long_history", [] {
+        int variant = mc::choose(4);
+        int ntok = mc::thorough() ? 250000 : 40000;
+        mc::describe("one binreader, %d fields in sequence (variant %d), value and cursor after every read", ntok, variant);
+        mc::nontrivial();
+        struct Tok
+        {
+            char kind; // F I B K
+            size_t at, len;
+            long ival;
+            uint32_t bval;
+        };
+        std::string st;
+        std::vector<Tok> toks;
+        toks.reserve(ntok);
+        static const char *const EXPO[6] = {"", "e+3", "E-2", "e0", "e12", "E+00"};
+        for (int i = 0; i < ntok; i++)
+        {
+            unsigned k = (unsigned)i * 7u + (unsigned)variant * 3u; // stride coprime to the alphabet sizes below
+            Tok t{};
+            t.at = st.size();
+            int kind = k % 5;
+            char b[64];
+            if (kind <= 1 || kind == 4) // float literal (3 of 5)
+            {
+                t.kind = 'F';
+                int n = 0;
+                unsigned sg = (k / 5) % 3;
+                if (sg == 1)
+                    b[n++] = '-';
+                if (sg == 2)
+                    b[n++] = '+';
+                unsigned ip = (unsigned)i * 7919u % 100000u;
+                bool no_int = i % 11 == 0;
+                if (!no_int)
+                    n += snprintf(b + n, sizeof b - n, "%u", ip);
+                int fd = no_int ? 1 + i % 3 : i % 4;
+                if (fd || i % 5 == 0)
+                    b[n++] = '.';
+                if (fd)
+                    n += snprintf(b + n, sizeof b - n, "%0*u", fd, (unsigned)i * 104729u % (fd == 1 ? 10u : fd == 2 ? 100u : 1000u));
+                n += snprintf(b + n, sizeof b - n, "%s", EXPO[(k / 15) % 6]);
+                st.append(b, n);
+            }
+            else if (kind == 2)
+            {
+                t.kind = 'I';
+                t.ival = (long)((unsigned)i * 2654435761u % 2000001u) - 1000000;
+                st += std::to_string(t.ival);
+            }
+            else
+            {
+                if (i % 2)
+                {
+                    t.kind = 'B';
+                    t.bval = (unsigned)i * 2246822519u;
+                    st.append((const char *)&t.bval, 4);
+                }
+                else
+                {
+                    t.kind = 'K';
+                    st.append(1 + i % 7, (char)('a' + i % 26));
+                }
+            }
+            t.len = st.size() - t.at;
+            st += ';';
+            toks.push_back(t);
+        }
+        char *buf = (char *)malloc(st.size() + 1); // exactly sized (ASan); NUL after the last separator
+        memcpy(buf, st.data(), st.size());
+        buf[st.size()] = 0;
+        igris::binreader rd(buf);
+        mc::crash_context("C12.binreader.memory");
+        uint64_t ops = 0, floats = 0;
+        auto cursor = [&]() {
+            const char *p = nullptr;
+            rd.bind_buffer(p, 0);
+            return (long)(p - buf);
+        };
+        bool bad = false;
+        for (int i = 0; i < ntok && !bad; i++)
+        {
+            const Tok &t = toks[i];
+            long want_cur = (long)(t.at + t.len);
+            const char *op = "";
+            if (t.kind == 'F')
+            {
+                op = "read_ascii_decimal_float";
+                char *ge = nullptr;
+                float want = strtof(buf + t.at, &ge);
+                if (ge != buf + t.at + t.len)
+                    mc::harness_error("strtof ended at %ld, literal %zu..%zu", (long)(ge - buf), t.at, t.at + t.len);
+                float got = -12345.f;
+                rd.read_ascii_decimal_float(&got);
+                floats++;
+                __int128 d = (__int128)ord32(got) - ord32(want);
+                if (d < 0)
+                    d = -d;
+                if (d > 8 || std::isinf(got) != std::isinf(want))
+                {
+                    mc::violation("C12.binreader.read_ascii_decimal_float.value", "field %d at byte %zu \"%s\": got %.9g, strtof gives %.9g", i, t.at,
+                                  std::string(buf + t.at, t.len).c_str(), got, want);
+                    bad = true;
+                }
+            }
+            else if (t.kind == 'I')
+            {
+                op = "read_ascii_decimal_integer";
+                int got = 0;
+                rd.read_ascii_decimal_integer(&got);
+                if (got != t.ival)
+                {
+                    mc::violation("C12.binreader.read_ascii_decimal_integer.value", "field %d at byte %zu: got %d want %ld", i, t.at, got, t.ival);
+                    bad = true;
+                }
+            }
+            else if (t.kind == 'B')
+            {
+                op = "read_binary";
+                uint32_t got = 0;
+                rd.read_binary(got);
+                if (got != t.bval)
+                {
+                    mc::violation("C12.binreader.read_binary.value", "field %d at byte %zu: got %08x want %08x", i, t.at, got, t.bval);
+                    bad = true;
+                }
+            }
+            else
+            {
+                op = "bind_buffer";
+                const char *p = nullptr;
+                rd.bind_buffer(p, t.len);
+                if (p != buf + t.at)
+                {
+                    mc::violation("C12.binreader.bind_buffer.value", "field %d: bound to byte %ld want %zu", i, (long)(p - buf), t.at);
+                    bad = true;
+                }
+            }
+            long cur = cursor();
+            if (!bad && cur != want_cur)
+            {
+                mc::violation(mc::fmt("C12.binreader.%s.cursor", op), "after field %d (bytes %zu..%zu, %llu bytes consumed by this reader): cursor at %ld want %ld", i, t.at,
+                              t.at + t.len, (unsigned long long)want_cur, cur, want_cur);
+                bad = true;
+            }
+            // the separator: alternately skipped and read
+            if (!bad)
+            {
+                if (i % 2)
+                    rd.skip(1);
+                else
+                {
+                    char c = 0;
+                    rd.read_binary(c);
+                    if (c != ';')
+                    {
+                        mc::violation("C12.binreader.read_binary.value", "separator after field %d: got %02x", i, (unsigned char)c);
+                        bad = true;
+                    }
+                }
+                if (!bad && cursor() != want_cur + 1)
+                {
+                    mc::violation("C12.binreader.skip.cursor", "after the separator of field %d: cursor at %ld want %ld", i, cursor(), want_cur + 1);
+                    bad = true;
+                }
+            }
+            ops += 4;
+            if ((i & 1023) == 0)
+                mc::tick();
+        }
+        mc::crash_context("C12.harness");
+        free(buf);
+        mc::outcome(mc::fmt("bytes>65535:%d", st.size() > 65535));
+        mc::count("binreader_bytes_consumed", (long)st.size());
+        mc::count("binreader_float_fields", (long)floats);
+        mc::more_cases(ops, ops);
     });
 }
 MC_MAIN
